@@ -126,6 +126,42 @@ class Scanner:
             return self.ptr(d.ops[0], env)
         return None
 
+    def _resolve_bool(self, o, env, depth=0):
+        """(operand or constant, negated): the branch condition o with phis replaced by what they received on the path, looking through
+        widenings and `x != 0` / `x == 0` of boolean-like values (a helper's `return a && b;` merged into one status)"""
+        if is_const(o) or depth > 8:
+            return o, False
+        o = self.resolve(o, env)
+        if is_const(o):
+            return o, False
+        d = self.fn.defn(o)
+        if d is None or d.is_param:
+            return o, False
+        if d.op in ("zext", "sext", "trunc"):
+            return self._resolve_bool(d.ops[0], env, depth + 1)
+        if d.op == "icmp" and d.pred in ("ne", "eq") and is_const(d.ops[1]) and const_val(d.ops[1]) == 0:
+            inner, neg = self._resolve_bool(d.ops[0], env, depth + 1)
+            di = self.fn.defn(inner) if not is_const(inner) else None
+            if is_const(inner) or (di is not None and not di.is_param and (di.op == "icmp" or di.ty == "i1")):
+                return inner, (neg if d.pred == "ne" else not neg)
+        if d.op == "xor" and is_const(d.ops[1]) and const_val(d.ops[1]) in (1, -1, True):
+            inner, neg = self._resolve_bool(d.ops[0], env, depth + 1)
+            return inner, not neg
+        return o, False
+
+    def branch_facts(self, b, s, env):
+        """facts of taking edge b -> s on a path with phi assignment env; None if the edge cannot be taken on this path"""
+        blk = self.fn.blocks[b]
+        t = blk.term
+        if t.op == "br" and len(t.ops) == 1 and len(t.succs) == 2 and t.succs[0] != t.succs[1]:
+            truth = (s == t.succs[0])
+            c, neg = self._resolve_bool(t.ops[0], env)
+            if is_const(c) and const_val(c) is not None:
+                return frozenset() if (bool(const_val(c)) != neg) == truth else None
+            if c != t.ops[0] or neg:
+                return self.F.cond_facts(c, truth != neg)
+        return self.F.edge_facts(b, s)
+
     # ---- path enumeration ---------------------------------------------------------------------------------------------
     def paths(self, start, L=None, env0=None, prev=None, stop_at=None, cap=4000):
         """all paths from block `start`: through one iteration of loop L when L is given (end 'back'), to a return (end 'ret', info =
@@ -159,10 +195,11 @@ class Scanner:
                 out.append(Path(facts, env, "noreturn", None, blocks + [b], inner))
                 return
             succs = blk.succs
-            if t.op == "br" and len(t.ops) == 1 and is_const(t.ops[0]) and const_val(t.ops[0]) is not None and len(t.succs) == 2:
-                succs = [t.succs[0] if const_val(t.ops[0]) != 0 else t.succs[1]]          # a branch the compiler already decided
             for s in succs:
-                f2 = facts + [(f, dict(env)) for f in F.edge_facts(b, s) if f[0] != "in"]
+                bf = self.branch_facts(b, s, env)
+                if bf is None:
+                    continue                    # decided by the compiler, or by what the status phis received on this path
+                f2 = facts + [(f, dict(env)) for f in bf if f[0] != "in"]
                 if L is not None and s == L["header"]:
                     out.append(Path(f2, enter(b, s, env, inner), "back", b, blocks + [b], inner))
                     continue
@@ -178,16 +215,17 @@ class Scanner:
                     for pid in init:
                         e_sym[pid] = ("v", pid)
                     inner2 = inner + [(il, init)]
-                    for (eb, es) in il["exits"]:
-                        # facts available on the exit edge (must-facts: true however the inner loop got there; facts about values
-                        # defined inside the inner loop cannot survive its header join, so they belong to the last iteration)
-                        f3 = f2 + [(f, dict(e_sym)) for f in (set(F.on_edge(eb, es)) | set(F.edge_facts(eb, es))) if f[0] != "in"]
+                    for (xf, xenv, eb, es) in self._exit_paths(il, e_sym, enter):
+                        # facts of the last pass through the inner loop (from its header, phis symbolic, to the exit edge), plus the
+                        # must-facts available on that edge (facts about values defined inside the inner loop cannot survive its header
+                        # join, so they too belong to the last pass)
+                        f3 = f2 + xf + [(f, dict(xenv)) for f in F.on_edge(eb, es) if f[0] != "in"]
                         if L is not None and es == L["header"]:
-                            out.append(Path(f3, enter(eb, es, e_sym, inner2), "back", eb, blocks + [b, s], inner2))
+                            out.append(Path(f3, enter(eb, es, xenv, inner2), "back", eb, blocks + [b, s], inner2))
                         elif L is not None and es not in L["body"]:
-                            rec_exit(eb, es, e_sym, f3, blocks + [b, s], inner2, depth)
+                            rec_exit(eb, es, xenv, f3, blocks + [b, s], inner2, depth)
                         else:
-                            rec(es, enter(eb, es, e_sym, inner2), f3, blocks + [b, s], inner2, depth + 1)
+                            rec(es, enter(eb, es, xenv, inner2), f3, blocks + [b, s], inner2, depth + 1)
                     continue
                 if L is not None and s not in L["body"]:
                     rec_exit(b, s, env, f2, blocks + [b], inner, depth)
@@ -200,6 +238,47 @@ class Scanner:
                 out.append(p)
 
         rec(start, dict(env0 or {}), [], [], [], 0)
+        return out
+
+    def _exit_paths(self, il, env, enter):
+        """ways out of inner loop il within one pass: list of (facts, env, from block, to block); header phis are symbolic in env"""
+        fn = self.fn
+        out = []
+        deeper = {l["header"] for l in self.loops if l["header"] != il["header"] and l["body"] < il["body"]}
+
+        def walk(b, env, facts, depth):
+            if depth > 60 or len(out) > 200:
+                return
+            for s in fn.blocks[b].succs:
+                bf = self.branch_facts(b, s, env)
+                if bf is None:
+                    continue
+                f2 = facts + [(f, dict(env)) for f in bf if f[0] != "in"]
+                if s == il["header"]:
+                    continue                        # another pass: not an exit
+                if s not in il["body"]:
+                    out.append((f2, env, b, s))
+                    continue
+                if s in deeper:
+                    # a loop nested deeper: no per-path facts beyond it, fall back to its exit edges with the must-facts only
+                    for dl in self.loops:
+                        if dl["header"] == s:
+                            e2 = dict(env)
+                            for i in fn.blocks[s].insts:
+                                if i.op == "phi":
+                                    e2[i.id] = ("v", i.id)
+                            for (eb, es) in dl["exits"]:
+                                if es in il["body"] and es != il["header"]:
+                                    walk_from(es, enter(eb, es, e2, []), f2, depth + 1)
+                                elif es not in il["body"]:
+                                    out.append((f2, e2, eb, es))
+                    continue
+                walk(s, enter(b, s, env, []), f2, depth + 1)
+
+        def walk_from(b, env, facts, depth):
+            walk(b, env, facts, depth)
+
+        walk(il["header"], dict(env), [], 0)
         return out
 
     def _after(self, s, env, facts, blocks, inner, exit_edge):
@@ -508,6 +587,7 @@ def check_detector(fn, F=None, target_field=None):
     # before the loop: both cursors start at the string; a zero return before the loop needs string == NULL; entering the loop needs string[0] != '/'
     pre = S.paths(0, None, {}, stop_at=L["header"])
     starts = set()
+    bases = {S.ptr(p.env.get(R.id), {})[0] for p in pre if p.end == "stop"}
     for p in pre:
         stats["pre"] += 1
         if p.end == "stop":
@@ -521,9 +601,8 @@ def check_detector(fn, F=None, target_field=None):
         elif p.end == "ret":
             v = p.info
             if v is not None and is_const(v) and const_val(v) == 0:
-                # only for a missing string
-                if not any(f[0] == "eq" and is_const(f[2]) and const_val(f[2]) == 0 and S.fn.defn(S.resolve(f[1], env)) is not None and
-                           getattr(S.fn.defn(S.resolve(f[1], env)), "op", "") == "load" and S.fn.defn(S.resolve(f[1], env)).ty.endswith("*") for f, env in p.facts):
+                # only for a missing string: the very pointer the scan would start from is NULL on this path
+                if not any(f[0] == "eq" and is_const(f[2]) and const_val(f[2]) == 0 and S.ptr(f[1], env)[1] == 0 and S.ptr(f[1], env)[0] in bases for f, env in p.facts):
                     problems.append((where, "'not dangerous' is returned before the scan for a string that is present"))
             elif v is None or not is_const(v):
                 problems.append((where, "a return before the scan whose value is not a constant"))
